@@ -3,8 +3,19 @@
  * output: M <idx> open=<0|1> err=<hex> [getter dump]
  */
 #include "drv.h"
+#include <sys/wait.h>
 
-typedef struct { blob *files; int n; } mctx;
+typedef struct { blob *files; int n; int allocfail; } mctx;
+
+/* allocfail 1: after the clean open, the open is repeated with each single allocation answered with NULL (allocator seam);
+ * an open that still succeeds must report exactly what the clean open reported.  Output: A <idx> allocs=<n> opened=<n> differ=<k,..|-> */
+static char *meta_string(zckCtx *zck) {
+    char *m = NULL; size_t mn = 0;
+    FILE *mf = open_memstream(&m, &mn);
+    dump_meta(zck, mf, "");
+    fclose(mf);
+    return m;
+}
 
 static void run_one(int idx, FILE *out, void *vctx) {
     mctx *c = vctx;
@@ -16,7 +27,49 @@ static void run_one(int idx, FILE *out, void *vctx) {
     put_hex(out, e, strlen(e) > 70 ? 70 : strlen(e));
     if(ok) dump_meta(zck, out, "");
     fputc('\n', out);
+    char *clean = ok && c->allocfail ? meta_string(zck) : NULL;
     zck_free(&zck);
+    if(clean) {
+        /* count the allocations of a clean open */
+        real_lseek(fd, 0, SEEK_SET);
+        env_alloc_count = 0; env_alloc_fail_at = -1; env_alloc_on = 1;
+        zck = zck_create();
+        zck_init_read(zck, fd);
+        env_alloc_on = 0;
+        int nalloc = env_alloc_count, nopen = 0, nd = 0;
+        zck_free(&zck);
+        fprintf(out, "A %d allocs=%d differ=", idx, nalloc);
+        int nother = 0;
+        for(int k = 0; k < nalloc + 1; k++) {
+            /* each in a process of its own: the hash table code answers a failed allocation with exit() */
+            fflush(NULL);
+            pid_t pid = fork();
+            if(pid < 0) die("fork");
+            if(pid == 0) {
+                real_lseek(fd, 0, SEEK_SET);
+                zck = zck_create();
+                if(!zck) die("zck_create");
+                env_alloc_count = 0; env_alloc_fail_at = k; env_alloc_on = 1;
+                int ok2 = zck_init_read(zck, fd);
+                env_alloc_on = 0; env_alloc_fail_at = -1;
+                int rc = 10;
+                if(ok2) {
+                    char *m2 = meta_string(zck);
+                    rc = strcmp(m2, clean) != 0 ? 12 : 11;
+                }
+                VF_EXIT(rc);
+            }
+            int st = 0;
+            while(waitpid(pid, &st, 0) < 0 && errno == EINTR) {}
+            int rc = WIFEXITED(st) ? WEXITSTATUS(st) : -1;
+            if(rc == 11 || rc == 12) nopen++;
+            if(rc == 12) { fprintf(out, "%s%d", nd ? "," : "", k); nd++; }
+            if(rc != 10 && rc != 11 && rc != 12) nother++;
+        }
+        if(!nd) fputc('-', out);
+        fprintf(out, " opened=%d other=%d\n", nopen, nother);
+        free(clean);
+    }
     real_close(fd);
 }
 
@@ -27,7 +80,8 @@ int cmd_meta(FILE *job, FILE *out) {
     while((line = read_line(job))) {
         int n;
         char **t = split_ws(line, &n);
-        if(n >= 2 && !strcmp(t[0], "file")) {
+        if(n >= 2 && !strcmp(t[0], "allocfail")) c.allocfail = atoi(t[1]);
+        else if(n >= 2 && !strcmp(t[0], "file")) {
             if(c.n >= cap) { cap = cap ? cap * 2 : 4096; c.files = realloc(c.files, cap * sizeof *c.files); }
             c.files[c.n++] = blob_arg(t[1]);
         }
